@@ -3,36 +3,6 @@ From GoRes Require Import Mux.Spec Pattern.Lemmas Mux.ProofsMatch Mux.ProofsOrde
 From Coq Require Import Lia Arith PeanoNat.
 Open Scope N_scope.
 
-(* ---- the flat op list ---- *)
-Inductive fop :=
-| FHandle (pat : bytes) (hid : N) (grp : bytes) (par : bool)
-| FListen (pat : bytes) (l : lid).
-Definition frun_op (root : node) (o : fop) : outcome node :=
-  match o with
-  | FHandle pat hid grp par => add root pat hid grp par
-  | FListen pat l => add_listener root pat l
-  end.
-Fixpoint frun (root : node) (ops : list fop) : node :=
-  match ops with
-  | [] => root
-  | o :: r => frun (out_state (frun_op root o)) r
-  end.
-(* the accepted Handle calls: (skeleton of the pattern, handler id) *)
-Fixpoint fregs (root : node) (ops : list fop) : list (list ptok * N) :=
-  match ops with
-  | [] => []
-  | o :: r =>
-    match o with
-    | FHandle pat hid _ _ => if is_ok (frun_op root o) then [(skel (ptoks pat), hid)] else []
-    | FListen _ _ => []
-    end ++ fregs (out_state (frun_op root o)) r
-  end.
-Definition to_op (k : nat) (o : fop) : op :=
-  match o with
-  | FHandle pat hid grp par => OHandle k pat hid grp par
-  | FListen pat l => OListen k pat l
-  end.
-
 (* ---- the two actions on the fetched node ---- *)
 Lemma params_eq_eq : forall a b, length b = length a -> params_eq a b = true -> a = b.
 Proof.
@@ -172,9 +142,6 @@ Qed.
 
 Lemma Inv_empty : forall (P : list ptok -> node -> Prop) pre, P pre empty_node -> Inv P pre empty_node.
 Proof. intros P pre H q m Rq. apply reach_empty in Rq as [-> ->]. rewrite app_nil_r. exact H. Qed.
-
-Definition pgroup (par : bool) (grp pat : bytes) : option group :=
-  if par then Some (Some []) else parse_group grp pat.
 
 (* generic: an op keeps an invariant if its fin does *)
 Section OpInv.
